@@ -3,7 +3,7 @@ CONSTANTS
   LoX <- QLoX
   ExtX <- QExtX
   LoY = {0}
-  ExtY = {1}
+  ExtY = {1, 3}
   LoZ = {0}
   ExtZ = {2}
   Sizes = {1, 2, 3}
